@@ -63,3 +63,47 @@ def run(facts, rep, ctx):
         else:
             rep.ok('SR-1', key, '%s:%s' % (custom.file, custom.line),
                    'write set of custom through self: %s' % sorted({effects.clean(p)[:1] for p in w}))
+
+
+def run_ri(facts, rep, rule, body_path, adt_path, floor_buffers):
+    from . import eng_ri
+    rep.rule(rule, 'per-call re-initialisation: on every path of the core routine the first mention of each reused '
+                   'scratch buffer of the aligner object is a reset (Vec::clear, whole-field assignment, or a local '
+                   'callee whose verified summary resets it); the literal `for k in 0..2` loop is analysed per '
+                   'iteration')
+    body = facts.body(body_path)
+    if body is None:
+        rep.missing(rule, body_path, 'core routine not found')
+        return
+    rep.analysed_body(body)
+    bufs = eng_ri.buffers_from_adt(facts, adt_path, ['I', 'D', 'S', 'Lx', 'Ly', 'Sn', 'traceback'],
+                                   sub={'traceback': ['matrix', 'rows', 'cols']})
+    rep.floor(rule, 'reused buffers of %s' % adt_path, len(bufs), floor_buffers)
+    ri = eng_ri.RI(facts, body, bufs).run()
+    bad = {}
+    for bid, bb, what in ri.violations:
+        bad.setdefault(bid, []).append(what)
+    resets = {}
+    for bid, bb, how in ri.resets:
+        resets.setdefault(bid, []).append(how)
+    for bid in sorted(bufs):
+        key = '%s|first-touch-is-reset|self.%s' % (body.path, bid)
+        if bid in bad:
+            rep.bad(rule, key, '%s:%s' % (body.file, body.line),
+                    'buffer self.%s is used before it is reset in this call: %s' % (bid, '; '.join(bad[bid][:3])))
+        elif bid not in resets:
+            rep.bad(rule, key, '%s:%s' % (body.file, body.line),
+                    'buffer self.%s is never reset in this call' % bid)
+        else:
+            rep.ok(rule, key, '%s:%s' % (body.file, body.line), resets[bid][0])
+    rep.extra.setdefault('ri', {})[body.path] = {'product_nodes': ri.nodes, 'touches': ri.touches,
+                                                  'peeled_loop': bool(ri.loop),
+                                                  'loop_range': [ri.loop.a, ri.loop.b] if ri.loop else None}
+
+
+_run_sr_only = run
+
+
+def run(facts, rep, ctx):
+    _run_sr_only(facts, rep, ctx)
+    run_ri(facts, rep, 'RI-1', 'alignment::pairwise::Aligner::<F>::custom', 'alignment::pairwise::Aligner', 12)
